@@ -116,3 +116,20 @@ pub fn iter_mut_find<'a, T, F: Fn(&T) -> bool>(v: &'a mut Vec<T>, f: F) -> (r: O
 // `x as f64` for u64 (exact below 2^53; A1)
 #[verifier::external_body]
 pub fn u64_as_f64(x: u64) -> (r: F64) ensures r@ == XR::Fin(x as real) { F64 { v: x as f64 } }
+// X.into_iter().map(C).collect::<Result<Vec<_>, E>>() (R18): all results in order, or the first error
+#[verifier::external_body]
+pub fn try_map_collect<T, U, E, F: Fn(T) -> Result<U, E>>(v: Vec<T>, f: F) -> (r: Result<Vec<U>, E>)
+    requires forall|i: int| 0 <= i < v.len() ==> f.requires((#[trigger] v[i],))
+    ensures
+        r is Ok ==> r->Ok_0.len() == v.len() && forall|i: int| 0 <= i < v.len() ==> f.ensures((#[trigger] v[i],), Ok::<U, E>(r->Ok_0[i])),
+        r is Err ==> exists|i: int| 0 <= i < v.len() && f.ensures((#[trigger] v[i],), Err::<U, E>(r->Err_0))
+            && forall|j: int| 0 <= j < i ==> exists|u: U| f.ensures((#[trigger] v[j],), Ok::<U, E>(u)),
+{ v.into_iter().map(f).collect() }
+// HashMap::into_iter(): each entry exactly once in SOME order
+#[verifier::external_body]
+pub fn hashmap_into_vec<V>(m: HashMap<u64, V>) -> (r: Vec<(u64, V)>)
+    ensures
+        forall|j: int| 0 <= j < r.len() ==> m@.contains_key((#[trigger] r[j]).0) && m@[r[j].0] == r[j].1,
+        forall|k: u64| m@.contains_key(k) ==> exists|j: int| 0 <= j < r.len() && (#[trigger] r[j]).0 == k,
+        forall|i: int, j: int| 0 <= i < j < r.len() ==> (#[trigger] r[i]).0 != (#[trigger] r[j]).0,
+{ m.into_iter().collect() }
